@@ -413,14 +413,21 @@ class Ctx:
         return exe
 
     def _vo_signature(self, extract_v):
+        """Hash of every .vo under each theories/<Dir> that the extraction text mentions
+        (`PL.Dir.File`, `From PL.Dir Require ...`): a changed model rebuilds the oracle."""
         sig = hashlib.sha1()
-        for m in re.finditer(r"PL\.([A-Za-z0-9_.]+)", extract_v):
-            p = os.path.join(THEORIES, m.group(1).replace(".", "/") + ".vo")
-            try:
-                with open(p, "rb") as f:
-                    sig.update(hashlib.sha1(f.read()).digest())
-            except OSError:
-                sig.update(b"missing")
+        dirs = sorted(set(re.findall(r"PL\.([A-Za-z0-9_]+)", extract_v)))
+        for d in dirs:
+            root = os.path.join(THEORIES, d)
+            if not os.path.isdir(root):
+                continue
+            for n in sorted(os.listdir(root)):
+                if n.endswith(".vo"):
+                    try:
+                        with open(os.path.join(root, n), "rb") as f:
+                            sig.update(n.encode() + hashlib.sha1(f.read()).digest())
+                    except OSError:
+                        sig.update(b"missing")
         return sig.hexdigest()
 
     def oracle(self, exe, lines, timeout=900):
